@@ -18,7 +18,7 @@ ToSet(s) == {s[i] : i \in DOMAIN s}
 
 \* ids of the known findings whose deviation actions are enabled (empty = strict)
 AllowIds == IF "ALLOW" \in DOMAIN IOEnv THEN IOEnv.ALLOW ELSE ""
-Allow == {id \in {"KF-C05-nosample"} : \E i \in 1..(Len(AllowIds) - Len(id) + 1) : SubSeq(AllowIds, i, i + Len(id) - 1) = id}
+Allow == {id \in {"KF-C05-notlonger"} : \E i \in 1..(Len(AllowIds) - Len(id) + 1) : SubSeq(AllowIds, i, i + Len(id) - 1) = id}
 
 CfgOf(r) == [peers |-> ToSet(r.cfg.peers), lastN |-> r.cfg.lastN, allow |-> Allow]
 
@@ -39,7 +39,8 @@ Load(r) ==
 
 \* choices the code makes and the log shows: the request built, the peer copied from
 Oracle(r) ==
-    [req  |-> [p \in PeerNames |-> r.st.peer[p].req],
+    [mode |-> "log", k |-> 0,
+     req  |-> [p \in PeerNames |-> r.st.peer[p].req],
      copy |-> [p \in PeerNames |->
                 LET cands == {q \in PeerNames : /\ HasProof(peer[q])
                                                 /\ peer[q].proved = r.st.peer[p].proved
@@ -49,16 +50,25 @@ Oracle(r) ==
 
 MsgOf(a) ==
     [last |-> a.last, lastOk |-> a.lastOk, empty |-> a.empty,
-     reorg |-> a.reorg, samples |-> a.samples, lastn |-> a.lastn, chain |-> a.chain,
+     nums |-> a.reorg \o a.samples \o a.lastn, chain |-> a.chain,
      match |-> a.attrs.match, root |-> a.attrs.root, pow |-> a.attrs.pow,
      cont |-> a.attrs.cont, mmr |-> a.attrs.mmr, tau |-> a.attrs.tau, td |-> a.attrs.td]
 
 \* C05: after the convergence phase the stored tip is a heaviest tip the peers announce
 \* (a known finding that banned an honest peer during the convergence phase voids the check)
+\* the property being decided by this run (convergence is judged for C05 only)
+Prop == IF "PROP" \in DOMAIN IOEnv THEN IOEnv.PROP ELSE "C05"
+
 QuiescentOk(a) ==
     /\ UNCHANGED <<now, peer, tip, tipTD, lastN>>
-    /\ \/ tip \in Heaviest(world, ToSet(a.tips) \cup {tip})
+    /\ \/ Prop # "C05"
+       \/ tip \in Heaviest(world, ToSet(a.tips) \cup {tip})
        \/ a.bans > 0 /\ cfg.allow # {}
+       \/ \* KF-C05-notlonger: a heavier announced tip whose NUMBER is not above the stored tip's
+          \* can never be requested (build_prove_request_content: start_number >= last_number)
+          /\ "KF-C05-notlonger" \in cfg.allow
+          /\ \A t \in ToSet(a.tips) : TrueTd(world, t) > TrueTd(world, tip) => Num(world, t) <= Num(world, tip)
+          /\ PrintT(<<"KNOWN-FINDING", "KF-C05-notlonger", tip>>)
 
 Step(r) ==
     CASE r.ev = "Connect"    -> Connect(r.a.p)
@@ -66,8 +76,7 @@ Step(r) ==
       [] r.ev = "Advance"    -> Advance(r.a.d)
       [] r.ev = "Refresh"    -> RefreshTick(Oracle(r), {})
       [] r.ev = "LastState"  -> RecvLastState(r.a.p, [b |-> r.a.b, ok |-> r.a.ok], Oracle(r))
-      [] r.ev = "Proof"      -> \/ RecvProof(r.a.p, MsgOf(r.a), Oracle(r))
-                                \/ KF_NoSample(r.a.p, MsgOf(r.a))
+      [] r.ev = "Proof"      -> RecvProof(r.a.p, MsgOf(r.a), Oracle(r))
       [] r.ev = "Restart"    -> Restart
       [] r.ev = "Quiescent"  -> QuiescentOk(r.a)
       [] OTHER               -> FALSE   \* Panic, BadRequest: never a step of the specification
